@@ -134,6 +134,7 @@ STUB_SETS = {
     "dttcontract": ["crate::draw_target::DrawState::draw_to_term, crate::draw_target::verif_rig_dt::contract_draw_to_term"],
     "rows1": ["crate::draw_target::visual_line_count, crate::draw_target::verif_rig_dt::rows_are_lines",
               "crate::draw_target::DrawState::visual_line_count, crate::draw_target::verif_rig_dt::ds_rows_are_lines"],
+    "multidrawrec": ["crate::multi::MultiState::draw, crate::multi::verif_rig_multi::record_multi_draw"],
     "noremove": ["crate::multi::MultiState::remove_idx, crate::multi::verif_rig_multi::record_remove_idx"],
     "lineclone": ["<crate::draw_target::LineType as std::clone::Clone>::clone, crate::draw_target::verif_rig_dt::clone_one_letter_line"],
     "nofloat": ["<f32 as std::fmt::Display>::fmt, crate::verif_common::fmt_f32_marker",
